@@ -343,7 +343,7 @@ func c21Cancel(p *an.Prog, r *an.R) {
 		}
 		for k := range b.Succs {
 			// does taking edge k imply (or possibly include) an observed cancellation?
-			implied := an.Implied(cond, k == 0, observes)
+			implied := g.EdgeImplies(b, k, observes)
 			// for `canceled || X` taken true we cannot tell which disjunct held; treat the true edge of a disjunction containing a cancel atom as cancelled too
 			if !implied && k == 0 {
 				mentions := false
